@@ -88,6 +88,14 @@ class ProcDriver:
         ctx = Ctx()
         ctx.hits = collections.Counter()
         ctx.log = []
+        used = desper.World()
+        used.add_processor(P1('probe', ctx.log), 3)
+        fresh = desper.World()
+        fresh.process(1)
+        if fresh.processors or ctx.log or P1.priority != 0:
+            raise Violation('fresh_world_is_independent',
+                            f'processors {fresh.processors}, calls {ctx.log}, '
+                            f'class priority {P1.priority}', isolation=True)
         ctx.world = desper.World()
         ctx.order = []      # model: [(instance, priority, seq)]
         ctx.seq = 0
